@@ -387,9 +387,52 @@ func c13Random(c *fw.Ctx, idx int) {
 	g := []int64{3, 5, 17, 1000, 1 << 20}[r.Intn(5)]
 	rp := func() ipt { return ipt{int64(r.Intn(int(g))), int64(r.Intn(int(g)))} }
 	pts := make([]ipt, 0, n)
-	kind := r.Intn(13)
-	names := []string{"coincident", "two-values", "collinear-axis", "collinear-general", "circle", "clustered", "uniform", "few-extremes", "octagon-degenerate", "octagon-degenerate", "lune-chain", "lune-chain", "convex-arc"}
+	kind := r.Intn(14)
+	names := []string{"coincident", "two-values", "collinear-axis", "collinear-general", "circle", "clustered", "uniform", "few-extremes", "octagon-degenerate", "octagon-degenerate", "lune-chain", "lune-chain", "convex-arc", "octagon-edge-by-one"}
 	switch kind {
+	case 13:
+		// eight extreme points (W, NW, N, NE, ...) in convex position at 2^29, 45..150
+		// small interior points, and next to one to three of the octagon's edges a
+		// point whose cross product with that edge is exactly +1 (just outside: a
+		// hull vertex), -1 (just inside) or 0 (on it): the interior-point reduction
+		// has to decide that with 2^28-sized differences
+		const S = int64(1) << 29
+		j := func() int64 { return int64(r.Range(-1000000, 1000000)) }
+		oct := []ipt{
+			{-S, j()}, {-S + S/4 + j(), S - S/3 + j()}, {j(), S}, {S - S/4 + j(), S - S/3 + j()},
+			{S, j()}, {S - S/4 + j(), -S + S/3 + j()}, {j(), -S}, {-S + S/4 + j(), -S + S/3 + j()},
+		}
+		for i := 0; i < r.Range(45, 150); i++ {
+			pts = append(pts, ipt{int64(r.Range(-9, 9)), int64(r.Range(-9, 9))})
+		}
+		for e := r.Range(1, 3); e > 0; e-- {
+			k := r.Intn(8)
+			a, b := oct[k], oct[(k+1)%8]
+			dx, dy := b.x-a.x, b.y-a.y
+			for tries := 0; tries < 50; tries++ {
+				if g, _, _ := egcd(abs64(dx), abs64(dy)); g == 1 || g == -1 {
+					break
+				}
+				b.x++
+				dx = b.x - a.x
+			}
+			oct[(k+1)%8] = b
+			g, x, y := egcd(dx, dy) // dx x + dy y = g = +-1
+			if g != 1 && g != -1 {
+				continue
+			}
+			// (u, v) with dx v - dy u = 1
+			u, v := -y*g, x*g
+			// move along the edge to somewhere between its ends
+			if dx != 0 {
+				q := (u - dx/2) / dx
+				u, v = u-q*dx, v-q*dy
+			}
+			d := int64([]int{1, 1, 1, -1, 0}[r.Intn(5)])
+			// the octagon above runs clockwise; "outside" is to the left of a -> b
+			pts = append(pts, ipt{a.x + d*u + (1-abs64(d))*dx/2, a.y + d*v + (1-abs64(d))*dy/2})
+		}
+		pts = append(pts, oct...)
 	case 12:
 		// every point is a hull vertex and none lies inside the octagon of extreme
 		// points: k -> (k, k*k) and the like, 30..200 points
